@@ -62,7 +62,18 @@ func (s *Spec) DFA() (*auto.DFA, map[grammar.Terminal][]auto.State, error) {
 
 	// Map each terminal to a set of final states while ensuring each final state identifies a single terminal.
 	termMap := make(map[grammar.Terminal][]auto.State)
-	for f, defs := range stateDefs {
+
+	// The final states are visited in ascending order, so that the result does not depend on the map iteration order.
+	finals := make([]auto.State, 0, len(stateDefs))
+	for f := range stateDefs {
+		finals = append(finals, f)
+	}
+
+	sort.Quick(finals, auto.CmpState)
+
+	for _, f := range finals {
+		defs := stateDefs[f]
+
 		switch len(defs) {
 		case 0:
 		case 1:
